@@ -496,6 +496,15 @@ def coordinate_scales(ctx, D):
                 kinds = {scale(v, depth + 1) for v in defs}
                 return kinds.pop() if len(kinds) == 1 else None
             if isinstance(e, ast.Subscript):
+                # the stored mesh of a device file: `f["mesh/sites"]`, `f["mesh"]["sites"]` are the sites Mesh.to_hdf5 wrote,
+                # i.e. the device's own dimensionless mesh
+                key = e.slice.value if isinstance(e.slice, ast.Constant) and isinstance(e.slice.value, str) else None
+                if key is not None:
+                    path = key.strip("/").split("/")
+                    if path[-1] == "sites" and ("mesh" in path[:-1] or (isinstance(e.value, ast.Subscript) and isinstance(e.value.slice, ast.Constant)
+                                                                       and "mesh" in str(e.value.slice.value)) or "mesh" in norm(e.value).lower()):
+                        return "XI"
+                    return None
                 return scale(e.value, depth + 1)
             if isinstance(e, ast.BinOp):
                 l, r = scale(e.left, depth + 1), scale(e.right, depth + 1)
@@ -515,6 +524,15 @@ def coordinate_scales(ctx, D):
         for c in own_nodes(fn):
             if isinstance(c, ast.Call) and isinstance(c.func, ast.Attribute) and c.func.attr == "_create_dimensionless_mesh" and c.args:
                 sinks += 1
+                arg0 = c.args[0]
+                if isinstance(arg0, ast.Starred):
+                    # `_create_dimensionless_mesh(*pair)`: the first element of the pair
+                    cand = [arg0.value] if isinstance(arg0.value, ast.Tuple) else \
+                        [v for _, v in asg.get(arg0.value.id, []) if isinstance(v, ast.Tuple)] if isinstance(arg0.value, ast.Name) else []
+                    firsts = [t.elts[0] for t in cand if t.elts]
+                    if firsts and all(scale(x) == "XI" for x in firsts):
+                        problems.append((f, c, f"`{norm(c)[:70]}` is handed coordinates of the device's own (dimensionless) mesh; it divides by the coherence length itself"))
+                    continue
                 if scale(c.args[0]) == "XI":
                     problems.append((f, c, f"`{norm(c)[:70]}` is handed coordinates of the device's own (dimensionless) mesh; it divides by the coherence length itself"))
             elif isinstance(c, ast.BinOp):
